@@ -37,6 +37,7 @@ ASSUMPTIONS = [
     "comparison outside D is exact (bitwise equal values and equal dtype)",
 ]
 BUDGET = {"quick": (32, 8), "thorough": (None, 40)}
+EARLY = 6  # additional strata from 2005-2014 in the quick tier (all of them in the thorough tier)
 GEN = dict(mode="branch", max_households=3)
 KINDS = ["scale_group", "one_leaf", "copy_all", "copy_group", "clone_rule", "plus_one", "rounding_base", "rounding_offset"]
 
